@@ -45,6 +45,16 @@ func main() {
 		os.Exit(cmdSelftest(os.Args[2:]))
 	case "replay":
 		os.Exit(cmdReplay(os.Args[2:]))
+	case "builtins":
+		eng, err := loadEngine("/repo", repoPkgPatterns, nil)
+		if err != nil {
+			fmt.Println(err)
+			os.Exit(2)
+		}
+		for _, e := range eng.collectBuiltins() {
+			fmt.Printf("%s\t%s\t%q\treq=%d opt=%d keys=%d rest=%v\t%s\n", fnPkgPath(e.Fn), targetName(e.Fn, fnPkgPath(e.Fn)), e.Lisp, e.Req, e.Opt, e.Keys, e.Rest, e.Pos)
+		}
+		os.Exit(0)
 	default:
 		fmt.Fprintln(os.Stderr, "unknown command", os.Args[1])
 		os.Exit(2)
@@ -212,6 +222,8 @@ func cmdDump(args []string) int {
 	verbose := fs.Bool("v", false, "print every obligation")
 	budget := fs.Int("ms", 4000, "solver budget")
 	mut := fs.String("mutate", "", "file::old::new in-memory rewrite (first occurrence)")
+	sweep := fs.Bool("sweep", false, "verify under the C03 builtin-boundary precondition (safety obligations)")
+	zz := fs.String("zz", "", "use this file's text in place of /repo/lisp/zz_contracts_verif.go (experiments)")
 	fs.Parse(args)
 	var overlay map[string][]byte
 	if *mut != "" {
@@ -226,6 +238,17 @@ func cmdDump(args []string) int {
 			return 2
 		}
 		overlay = map[string][]byte{parts[0]: []byte(strings.Replace(string(src), parts[1], parts[2], 1))}
+	}
+	if *zz != "" {
+		b, err := os.ReadFile(*zz)
+		if err != nil {
+			fmt.Println(err)
+			return 2
+		}
+		if overlay == nil {
+			overlay = map[string][]byte{}
+		}
+		overlay["/repo/lisp/zz_contracts_verif.go"] = b
 	}
 	start := time.Now()
 	eng, err := loadEngine("/repo", repoPkgPatterns, overlay)
@@ -267,7 +290,11 @@ func cmdDump(args []string) int {
 	}
 	var all []*Obligation
 	for _, fn := range fns {
-		fr := eng.genFunc(fn, eng.conOf[fn])
+		con := eng.conOf[fn]
+		if *sweep {
+			con = eng.sweepContractFor(fn)
+		}
+		fr := eng.genFunc(fn, con)
 		fmt.Printf("== %s: %d obligations, %d passes, %d asserts\n", shortFn(fn), len(fr.Obls), fr.Passes, len(fr.VC.asserts))
 		for _, e := range fr.Errors {
 			fmt.Println("   ERROR:", e)
